@@ -254,11 +254,14 @@ int cstl_hash_foreach_const(const struct cstl_hash * const h,
 static void __cstl_hash_set_capacity(
     struct cstl_hash * const h, const size_t sz)
 {
-    struct cstl_hash_bucket * const at =
-        realloc(h->bucket.at, sizeof(*at) * sz);
-    if (at != NULL) {
-        h->bucket.at = at;
-        h->bucket.capacity = sz;
+    /* the number of bytes must be representable */
+    if (sz <= SIZE_MAX / sizeof(struct cstl_hash_bucket)) {
+        struct cstl_hash_bucket * const at =
+            realloc(h->bucket.at, sizeof(*at) * sz);
+        if (at != NULL) {
+            h->bucket.at = at;
+            h->bucket.capacity = sz;
+        }
     }
 }
 
